@@ -56,6 +56,11 @@ func vhConstFits(v constant.Value, lo int64, hi uint64) bool {
 	return constant.Compare(constant.MakeInt64(lo), token.LEQ, v) && constant.Compare(v, token.LEQ, constant.MakeUint64(hi))
 }
 
+func vhConstAbsBelowPow2(v constant.Value, k int) bool {
+	pow := constant.Shift(constant.MakeInt64(1), token.SHL, uint(k))
+	return constant.Compare(v, token.LSS, pow) && constant.Compare(constant.UnaryOp(token.SUB, pow, 0), token.LSS, v)
+}
+
 func vhConstLow64(v constant.Value) uint64 {
 	if i, ok := constant.Int64Val(v); ok {
 		return uint64(i)
